@@ -11,6 +11,7 @@ import (
 	"verif/engine/vctx"
 	"verif/engine/vpipe"
 	"verif/engine/vs"
+	"verif/engine/vtime"
 	"verif/fw"
 	"verif/refws/frame"
 )
@@ -230,6 +231,164 @@ func c15Oracle(c *fw.Ctx, w *vs.World, name string, prm c15Params, st *c15State)
 	c.OutcomeStr(fmt.Sprintf("%s|nil=%d|answered=%d|pings=%d", name, nils, len(st.answered), npings))
 }
 
+// Sequential family: one caller issues M Pings one after the other, each with
+// its own 1 s context; the peer treats the i-th ping according to a script:
+//
+//	a  answered once          d  answered twice (duplicate pong)
+//	w  withheld               l  answered exactly at the ping's deadline
+//
+// A Ping that was withheld must fail; one that returns nil must have had its
+// own payload sent before it returned (pongs left over from earlier pings —
+// duplicates, late answers — must not satisfy a later Ping).
+func c15SeqSetup(k connCfg, script string, reader string) func(c *fw.Ctx, name string) explore.Setup {
+	return func(c *fw.Ctx, name string) explore.Setup {
+		return func(w *vs.World) func(bool) {
+			m := len(script)
+			p := vpipe.New()
+			errs := make([]error, m)
+			done := make([]bool, m)
+			doneTick := make([]int, m)
+			sentTick := make([]int, m)
+			payloads := make([]string, m)
+			tick := 0
+			w.GoHarness("main", true, func() {
+				conn := mkConn(p, k)
+				bg := vctx.Background()
+				if reader == "closeread" {
+					conn.CloseRead(bg)
+				} else {
+					w.GoHarness("reader", false, func() {
+						for {
+							_, r, err := conn.Reader(bg)
+							if err != nil {
+								return
+							}
+							if _, err := io.Copy(io.Discard, r); err != nil {
+								return
+							}
+						}
+					})
+				}
+				w.GoHarness("peer", false, func() {
+					for i := 0; i < m; i++ {
+						var pl []byte
+						if !p.WaitOut(fmt.Sprintf("ping%d", i+1), func(out []byte) bool {
+							n := 0
+							for _, f := range connFrames(out) {
+								if f.Opcode == frame.OpPing {
+									if n == i {
+										pl = f.Payload
+									}
+									n++
+								}
+							}
+							return n > i
+						}) {
+							return
+						}
+						payloads[i] = string(pl)
+						pong := func() {
+							p.Send(peerFrame(k, frame.Frame{Fin: true, Opcode: frame.OpPong, Payload: pl}))
+							if sentTick[i] == 0 {
+								tick++
+								sentTick[i] = tick
+							}
+						}
+						switch script[i] {
+						case 'a':
+							pong()
+						case 'd':
+							pong()
+							pong()
+						case 'l':
+							vtime.Sleep(time.Second)
+							pong()
+						}
+					}
+				})
+				w.GoHarness("pinger", true, func() {
+					for i := 0; i < m; i++ {
+						ctx, cancel := vctx.WithTimeout(bg, time.Second)
+						errs[i] = conn.Ping(ctx)
+						cancel()
+						tick++
+						doneTick[i] = tick
+						done[i] = true
+					}
+				})
+			})
+			return func(complete bool) {
+				if !complete {
+					return
+				}
+				locus := "seq/" + reader + "/" + k.String()
+				if w.Panic != "" {
+					violate(c, w, name, "C15/panic/"+locus, w.Panic)
+					return
+				}
+				if w.Deadlock || w.HorizonHit {
+					violate(c, w, name, "C15/ping-never-returns/"+locus, fmt.Sprintf("a Ping neither succeeded nor failed with its context (1 s): stuck %v", stuckTasks(w)))
+					return
+				}
+				sig := ""
+				healthy := true
+				for i := 0; i < m; i++ {
+					if !done[i] {
+						sig += "?"
+						continue
+					}
+					if errs[i] == nil {
+						sig += "n"
+						if sentTick[i] == 0 || sentTick[i] > doneTick[i] {
+							violate(c, w, name, "C15/ping-nil-without-own-pong/"+locus, fmt.Sprintf("script %q: Ping #%d (payload %q) returned nil although no pong with its payload had been sent to the connection by then (pongs of earlier pings must not count)", script, i+1, payloads[i]))
+							return
+						}
+					} else {
+						sig += "e"
+						if healthy && (script[i] == 'a' || script[i] == 'd') {
+							violate(c, w, name, "C15/answered-ping-failed/"+locus, fmt.Sprintf("script %q: Ping #%d was answered at once on a connection that is being read, all earlier pings had succeeded, yet it failed: %v", script, i+1, errs[i]))
+							return
+						}
+						healthy = false
+					}
+				}
+				c.OutcomeStr(name + "|" + sig)
+			}
+		}
+	}
+}
+
+func c15SeqScenarios(tier string) []scenario {
+	var scs []scenario
+	m := 2
+	cfg := explore.Config{P: 1, T: 1, E: 0, Horizon: 60e9}
+	if tier == "thorough" {
+		m = 3
+		cfg.P = 2
+	}
+	var scripts []string
+	var gen func(cur string)
+	gen = func(cur string) {
+		if len(cur) == m {
+			scripts = append(scripts, cur)
+			return
+		}
+		for _, x := range "adwl" {
+			gen(cur + string(x))
+		}
+	}
+	gen("")
+	for _, k := range []connCfg{{Client: false}, {Client: true}} {
+		for _, rd := range []string{"loop", "closeread"} {
+			for si, sc := range scripts {
+				n := fmt.Sprintf("seq-%s/%s/%s", sc, rd, k.String())
+				scs = append(scs, scenario{Name: n, Cfg: cfg, Setup: c15SeqSetup(k, sc, rd), Group: fmt.Sprintf("seq/%s/%s/%d", rd, k.String(), si%4)})
+			}
+		}
+	}
+	return scs
+}
+
 func c15Scenarios(tier string) []scenario {
 	var scs []scenario
 	cfg := explore.Config{P: 1, T: 0, E: 0, Horizon: 60e9}
@@ -255,7 +414,7 @@ func c15Scenarios(tier string) []scenario {
 			}
 		}
 	}
-	return scs
+	return append(scs, c15SeqScenarios(tier)...)
 }
 
 // c15RaceScenarios: concurrent Pings under the race detector. Payload
